@@ -6,10 +6,11 @@ import X86Model.Driver.Proto
 import X86Model.Driver.Addr
 import X86Model.Driver.Port
 import X86Model.Driver.Interrupts
+import X86Model.Driver.Regs
 
 open X86 X86.Driver
 
-def allHandlers : List Handler := [handleC05, handleC18, handleC17]
+def allHandlers : List Handler := [handleC05, handleC18, handleC17, handleC16]
 
 def dispatch : Handler := fun cfg op a impl =>
   allHandlers.firstM (fun h => h cfg op a impl)
